@@ -6,37 +6,100 @@ W = 64  # model width
 class PathAbort(BaseException): pass
 
 class Engine:
+    """Fork-by-replay with one incremental solver: PC entries are frames on a push/pop stack (trie walk)."""
     def __init__(self):
         self.solver = z3.Solver()
-        self.decisions = []   # replay prefix
+        self.frames = []      # formulas currently pushed
+        self.decisions = []
         self.pos = 0
         self.pc = []
-        self.obligations = []  # (formula that must hold under pc for model to be exact)
+        self.obligations = []
+        self.model = None
+        self.nchecks = 0
     def reset(self, prefix):
-        self.solver = z3.Solver(); self.decisions = list(prefix); self.pos = 0; self.pc = []; self.obligations=[]
+        self.decisions = list(prefix); self.pos = 0; self.pc = []; self.obligations = []
+    def _sync(self, f):
+        """make frame len(self.pc) equal to f"""
+        i = len(self.pc)
+        if i < len(self.frames) and self.frames[i].eq(f):
+            pass
+        else:
+            while len(self.frames) > i:
+                self.solver.pop(); self.frames.pop()
+            self.solver.push(); self.solver.add(f); self.frames.append(f)
+            self.model = None
+        self.pc.append(f)
+    def _trim(self):
+        while len(self.frames) > len(self.pc):
+            self.solver.pop(); self.frames.pop(); self.model = None
     def assume(self, f):
-        self.pc.append(f); self.solver.add(f)
+        self._sync(f)
+    def _check(self, extra=None):
+        self._trim()
+        self.nchecks += 1
+        r = self.solver.check(extra) if extra is not None else self.solver.check()
+        if r == z3.unknown: raise RuntimeError("solver unknown")
+        return r == z3.sat
+    def concretize(self, t):
+        """fork over the feasible concrete values of bit-vector term t (signed reading); returns a Python int.
+        Candidate values are recorded in the decision list so that replays are deterministic."""
+        t = z3.simplify(t)
+        while True:
+            if z3.is_bv_value(t):
+                return t.as_signed_long()
+            if self.pos < len(self.decisions):
+                kind, v, d = self.decisions[self.pos]; self.pos += 1
+                assert kind in ("c", "cf"), kind
+                vv = z3.BitVecVal(v, t.size())
+                self.assume(t == vv if d else t != vv)
+                if d:
+                    return vv.as_signed_long()
+                continue
+            self._trim()
+            if not self._check():
+                raise PathAbort("infeasible")
+            m = self.solver.model(); self.model = m
+            vv = m.eval(t, model_completion=True)
+            if self._check(t != vv):
+                self.decisions.append(("c", vv.as_long(), True)); self.pos += 1
+                self.assume(t == vv)
+            else:
+                self.decisions.append(("cf", vv.as_long(), True)); self.pos += 1
+                self.assume(t == vv)
+            return vv.as_signed_long()
+
     def branch(self, cond):
-        # cond is z3 Bool
         cond = z3.simplify(cond)
         if z3.is_true(cond): return True
         if z3.is_false(cond): return False
         if self.pos < len(self.decisions):
-            d = self.decisions[self.pos]; self.pos += 1
+            kind, _, d = self.decisions[self.pos]; self.pos += 1
+            assert kind in ("b", "bf"), kind
             self.assume(cond if d else z3.Not(cond))
             return d
-        # new decision: check feasibility of both
-        can_t = self.solver.check(cond) == z3.sat
-        can_f = self.solver.check(z3.Not(cond)) == z3.sat
-        if can_t and can_f:
-            self.decisions.append(True); self.pos += 1
+        self._trim()
+        # use cached model to know one feasible side for free
+        side = None
+        if self.model is not None:
+            v = self.model.eval(cond, model_completion=True)
+            if z3.is_true(v): side = True
+            elif z3.is_false(v): side = False
+        if side is None:
+            if self._check():
+                self.model = self.solver.model()
+                v = self.model.eval(cond, model_completion=True)
+                side = bool(z3.is_true(v))
+            else:
+                raise PathAbort("infeasible")
+        other = z3.Not(cond) if side else cond
+        if self._check(other):
+            # both feasible: take True first
+            self.decisions.append(("b", None, True)); self.pos += 1
             self.assume(cond)
             return True
-        if can_t:
-            return True
-        if can_f:
-            return False
-        raise PathAbort("infeasible")
+        self.decisions.append(("bf", None, side)); self.pos += 1   # forced: recorded for replay alignment only
+        self.assume(cond if side else z3.Not(cond))
+        return side
 
 ENG = Engine()
 
@@ -162,7 +225,8 @@ class SInt(int):
     def __bool__(s):
         need_fit(s)
         return ENG.branch(term(s) != 0)
-    def __hash__(s): return id(s)
+    def __hash__(s):
+        return hash(ENG.concretize(term(s)))
     def __repr__(s): return f"SInt({s.t})"
     __str__ = __repr__
     def __index__(s): raise RuntimeError("concretisation of SInt via __index__")
@@ -187,7 +251,10 @@ def explore(fn, max_paths=100000):
         n += 1
         # schedule alternatives for decisions made beyond prefix
         for i in range(len(prefix), len(ENG.decisions)):
-            alt = ENG.decisions[:i] + [False]
+            k, v, d = ENG.decisions[i]
+            if k in ("bf", "cf"):
+                continue
+            alt = ENG.decisions[:i] + [(k, v, False)]
             stack.append(alt)
         yield list(ENG.pc), list(ENG.obligations), res
         if n >= max_paths: raise RuntimeError("too many paths")
